@@ -11,3 +11,8 @@ if ! (cd "$scratch" && patch -p1 -s --no-backup-if-mismatch < "$patch"); then
   echo "STALE patch does not apply: $patch"; exit 3
 fi
 /verif/bin/govc verify -repo "$scratch" -property "$prop" -replays "${REPLAYS:-/tmp/vf-replays}" -known "${KNOWN:-/verif/known_findings.jsonl}" "$@"
+rc=$?
+if [ "$prop" = C03 ] && [ $rc -eq 0 ]; then
+  /verif/tools/bounded_c03.sh "$scratch" ""; rc=$?
+fi
+exit $rc
